@@ -45,7 +45,23 @@ type Spec struct {
 func diff(old, nw []byte, parts, conc int, warm bool) ([]*bsdiff.Control, error) {
 	var ctrls []*bsdiff.Control
 	dc := &bsdiff.DiffContext{Partitions: parts, SuffixSortConcurrency: conc}
-	if warm {
+	if warm && (caseKey(old, nw)>>1)%2 == 1 {
+		// the other kind of earlier work (decided from the case alone): an unrelated pair, somewhat longer than
+		// the case, whose series adds non-zero bytes all along - whatever the context keeps between calls is then
+		// neither empty nor zero
+		l := len(nw) + 64
+		if l < 256 {
+			l = 256
+		}
+		so := h.Content{{Src: 11, Off: 17, Len: l}}.Bytes()
+		sn := append([]byte{}, so...)
+		for i := 0; i < len(sn); i += 7 {
+			sn[i]++
+		}
+		if err := dc.Do(bytes.NewReader(so), bytes.NewReader(sn), func(proto.Message) error { return nil }, h.Quiet()); err != nil {
+			return nil, fmt.Errorf("warm-up diff (unrelated pair): %w", err)
+		}
+	} else if warm {
 		if err := dc.Do(bytes.NewReader(nw), bytes.NewReader(old), func(proto.Message) error { return nil }, h.Quiet()); err != nil {
 			return nil, fmt.Errorf("warm-up diff (roles swapped): %w", err)
 		}
@@ -263,7 +279,17 @@ func allStrings(alpha, maxLen int) [][]byte {
 }
 
 // enumWarm decides, from the case alone, whether an enumerated case runs on a used DiffContext (half of them)
-func enumWarm(old, nw []byte) bool { return (len(old)+len(nw))%2 == 1 }
+func enumWarm(old, nw []byte) bool { return caseKey(old, nw)%2 == 1 }
+
+// caseKey is a small number computed from the case alone (lengths and the first bytes), used to spread
+// harness choices over the cases without drawing anything: identical pairs get both parities too
+func caseKey(old, nw []byte) int {
+	k := len(old)*3 + len(nw)
+	for i := 0; i < len(old) && i < 64; i++ {
+		k += int(old[i]) * (i + 1)
+	}
+	return k
+}
 
 func check(s Spec) h.Result {
 	if s.Procs > 0 {
